@@ -60,14 +60,17 @@ GRIDS = [
     {"innovation_filtering": [5.0, 0.5], "max_dt_sec": [0.05, 0.1]},
     {},
     {"innovation_filtering": [None], "max_dt_sec": [0.1, 0.05], "common_subexpression_elimination": [False]},
+    {"innovation_filtering": [None], "max_dt_sec": [0.2]},
+    {"innovation_filtering": [1.0 / 3.0, 2.718281828459045], "max_dt_sec": [1.0 / 30.0]},
 ]
 
 
 def cases(tier, seed):
     yield {"kind": "machine", "seed": seed}
     yield {"kind": "refuse", "seed": seed}
-    grids = GRIDS[:3] if tier == "quick" else GRIDS
-    for gi, g in enumerate(grids):
+    grids = [GRIDS[0], GRIDS[1], GRIDS[8]] if tier == "quick" else GRIDS
+    for g in grids:
+        gi = GRIDS.index(g)
         yield {"kind": "grid", "grid": gi, "rows": 4 + gi % 3, "seed": seed}
 
 
